@@ -655,8 +655,252 @@ func TestC03(t *testing.T) {
 		runURL(f, data, 3, 206, data[:4], true, "uncomputable-truncate", true)
 		runURL(f, data, 3, 404, data, true, "uncomputable-status@404", true)
 	}
+	heldStreams(t, e, st, cs, in)
 	cs.Close()
 	st.Write(e)
+}
+
+// ---------- held blocks: what a caller was given must stay what was verified ----------
+
+type heldBlock struct {
+	f    form
+	c    cid.Cid
+	want []byte
+	snap []byte       // copy of the bytes at the moment Get returned
+	blk  blocks.Block // the block the caller keeps
+	how  string
+	step int
+}
+
+type hRef struct {
+	f       form
+	c       cid.Cid
+	data    []byte
+	file    int // index of the backing file, -1 for a URL reference
+	off     int
+	url     string
+	damaged bool
+}
+
+// heldStreams keeps blocks returned by Get while further reads of references in the same size
+// class (successful ones, failing ones on modified / truncated files and bodies, Verify, VerifyAll)
+// go on, and checks at the end that every kept block still has the bytes it was returned with and
+// that they still hash to its CID (independent digest).
+func heldStreams(t *testing.T, e *vh.Env, st *vh.Stats, cs *vh.Cases, in *intern) {
+	ctx := context.Background()
+	finish := func(part string, class string, held []heldBlock, log []string) {
+		for _, h := range held {
+			live := h.blk.RawData()
+			rid, eid := in.id(h.snap), in.id(live)
+			tab := []string{fmt.Sprintf("(%d, %d, %s)", h.f.id, rid, digOpt(h.f, h.snap))}
+			if eid != rid {
+				tab = append(tab, fmt.Sprintf("(%d, %d, %s)", h.f.id, eid, digOpt(h.f, live)))
+			}
+			hist := log
+			if len(hist) > 60 {
+				hist = append(append([]string{}, hist[:30]...), append([]string{"..."}, hist[len(hist)-29:]...)...)
+			}
+			rp := map[string]any{"part": part, "class": class, "form": h.f.name, "cid": h.c.String(), "size": len(h.snap),
+				"returned_by": h.how, "returned_at_step": h.step, "steps": len(log), "history": strings.Join(hist, " ")}
+			ok := string(live) == string(h.snap) && !h.f.bad && string(indep(h.f, live)) == string(h.want)
+			if !ok {
+				st.Violate("a block returned by Get no longer holds the bytes it was returned with / no longer hashes to its CID after later reads", "", rp)
+			}
+			cs.Add(vh.App("CHeld", cidCoq(h.f, h.want), vh.List(tab), strconv.Itoa(rid), strconv.Itoa(eid)), rp)
+			st.Case(fmt.Sprintf("H|%s|%s|%s|%d|%d", part, class, h.c.String(), h.step, len(log)), true)
+			st.Count("held " + part)
+			st.Sample(rp, 8)
+		}
+	}
+
+	classes := []struct {
+		name   string
+		lo, hi int
+	}{{"7-16", 7, 16}, {"100-120", 100, 120}, {"1000-1024", 1000, 1024}, {"4096", 4096, 4096}}
+	goodForms := []form{forms[1], forms[2], forms[3], forms[4]}
+
+	// ---- validating blockstore ----
+	for _, cl := range classes {
+		mds := dssync.MutexWrap(ds.NewMapDatastore())
+		vbs := &blockstore.ValidatingBlockstore{Blockstore: blockstore.NewBlockstore(mds)}
+		type vb struct {
+			f    form
+			c    cid.Cid
+			data []byte
+		}
+		var pool []vb
+		for i := 0; i < 8; i++ {
+			data := make([]byte, cl.lo+e.Rng.Intn(cl.hi-cl.lo+1))
+			e.Rng.Read(data)
+			f := goodForms[i%len(goodForms)]
+			c := mkCid(t, f, data)
+			if err := mds.Put(ctx, blockstore.BlockPrefix.Child(dshelp.MultihashToDsKey(c.Hash())), data); err != nil {
+				t.Fatal(err)
+			}
+			pool = append(pool, vb{f, c, data})
+		}
+		var held []heldBlock
+		var log []string
+		for step := 0; step < e.Pick(40, 150); step++ {
+			b := pool[e.Rng.Intn(len(pool))]
+			if e.Rng.Intn(4) == 0 { // corrupt or repair the stored bytes
+				mut := append([]byte{}, b.data...)
+				if e.Rng.Intn(2) == 0 && len(mut) > 0 {
+					mut[e.Rng.Intn(len(mut))] ^= 0x40
+				}
+				mds.Put(ctx, blockstore.BlockPrefix.Child(dshelp.MultihashToDsKey(b.c.Hash())), mut)
+				log = append(log, "store")
+			}
+			blk, err := vbs.Get(ctx, b.c)
+			if err == nil {
+				held = append(held, heldBlock{b.f, b.c, indep(b.f, b.data), append([]byte{}, blk.RawData()...), blk, "ValidatingBlockstore.Get", step})
+				log = append(log, "get+")
+			} else {
+				log = append(log, "get-")
+			}
+		}
+		finish("validating", cl.name, held, log)
+	}
+
+	// ---- file and URL references ----
+	bodies := map[string][]byte{}
+	srv := httptest.NewServer(http.HandlerFunc(func(w http.ResponseWriter, r *http.Request) {
+		b, ok := bodies[r.URL.Path]
+		if !ok {
+			w.WriteHeader(404)
+			return
+		}
+		w.WriteHeader(206)
+		w.Write(b)
+	}))
+	defer srv.Close()
+	for _, rd := range []string{"RStd", "RMmap"} {
+		for _, cl := range classes {
+			dir := t.TempDir()
+			var opts []filestore.Option
+			if rd == "RMmap" {
+				opts = append(opts, filestore.WithMMapReader())
+			}
+			fds := dssync.MutexWrap(ds.NewMapDatastore())
+			fm := filestore.NewFileManager(fds, dir, opts...)
+			fm.AllowFiles, fm.AllowUrls = true, true
+			fstore := filestore.NewFilestore(blockstore.NewBlockstore(fds), fm, nil)
+			nfiles := 3
+			contents := make([][]byte, nfiles)
+			paths := make([]string, nfiles)
+			var refs []*hRef
+			put := func(r *hRef, full string) {
+				blk, err := blocks.NewBlockWithCid(r.data, r.c)
+				if err != nil {
+					t.Fatal(err)
+				}
+				node := &posinfo.FilestoreNode{Node: rawNode{blk}, PosInfo: &posinfo.PosInfo{FullPath: full, Offset: uint64(r.off)}}
+				if err := fstore.Put(ctx, node); err != nil {
+					t.Fatalf("Put: %v", err)
+				}
+				refs = append(refs, r)
+			}
+			for fi := 0; fi < nfiles; fi++ {
+				paths[fi] = filepath.Join(dir, fmt.Sprintf("f%d", fi))
+				var content []byte
+				type pend struct{ off, size int }
+				var ps []pend
+				for k := 0; k < 4; k++ {
+					content = append(content, byte(k), 0xEE, 0xEE) // a gap
+					size := cl.lo + e.Rng.Intn(cl.hi-cl.lo+1)
+					region := make([]byte, size)
+					e.Rng.Read(region)
+					ps = append(ps, pend{len(content), size})
+					content = append(content, region...)
+				}
+				contents[fi] = content
+				if err := os.WriteFile(paths[fi], content, 0o644); err != nil {
+					t.Fatal(err)
+				}
+				for k, p := range ps {
+					f := goodForms[(fi+k)%len(goodForms)]
+					data := append([]byte{}, content[p.off:p.off+p.size]...)
+					put(&hRef{f: f, c: mkCid(t, f, data), data: data, file: fi, off: p.off}, paths[fi])
+				}
+			}
+			for u := 0; u < 3; u++ {
+				size := cl.lo + e.Rng.Intn(cl.hi-cl.lo+1)
+				data := make([]byte, size)
+				e.Rng.Read(data)
+				pth := fmt.Sprintf("/%s/%s/u%d", rd, cl.name, u)
+				bodies[pth] = append([]byte{}, data...)
+				f := goodForms[u%len(goodForms)]
+				put(&hRef{f: f, c: mkCid(t, f, data), data: data, file: -1, off: 5, url: pth}, srv.URL+pth)
+			}
+
+			var held []heldBlock
+			var log []string
+			get := func(r *hRef, step int) {
+				var blk blocks.Block
+				var err error
+				how := "FileManager.Get"
+				if e.Rng.Intn(2) == 0 {
+					how = "Filestore.Get"
+					blk, err = fstore.Get(ctx, r.c)
+				} else {
+					blk, err = fm.Get(ctx, r.c)
+				}
+				if err == nil {
+					held = append(held, heldBlock{r.f, r.c, indep(r.f, r.data), append([]byte{}, blk.RawData()...), blk, how + " rd=" + rd, step})
+					log = append(log, "get+")
+				} else {
+					log = append(log, "get-")
+				}
+			}
+			steps := e.Pick(60, 250)
+			for step := 0; step < steps; step++ {
+				r := refs[e.Rng.Intn(len(refs))]
+				switch x := e.Rng.Intn(20); {
+				case x < 11:
+					get(r, step)
+				case x < 14: // damage the backing bytes of a reference, then read it (must fail) and others
+					if r.file >= 0 {
+						c := contents[r.file]
+						c[r.off+e.Rng.Intn(len(r.data))] ^= 0x01
+						os.WriteFile(paths[r.file], c, 0o644)
+					} else {
+						bodies[r.url][e.Rng.Intn(len(r.data))] ^= 0x01
+					}
+					r.damaged = true
+					log = append(log, "damage")
+					get(r, step)
+				case x < 15: // truncate a file inside its last region (or a body), read
+					if r.file >= 0 {
+						c := contents[r.file]
+						c = c[:len(c)-1-e.Rng.Intn(3)]
+						contents[r.file] = c
+						os.WriteFile(paths[r.file], c, 0o644)
+					} else {
+						b := bodies[r.url]
+						bodies[r.url] = b[:len(b)-1]
+					}
+					log = append(log, "truncate")
+					get(r, step)
+				case x < 18:
+					filestore.Verify(ctx, fstore, r.c)
+					log = append(log, "verify")
+				default:
+					next, err := filestore.VerifyAll(ctx, fstore, e.Rng.Intn(2) == 0)
+					if err == nil {
+						for n := 0; n < 1000 && next(ctx) != nil; n++ {
+						}
+					}
+					log = append(log, "verifyall")
+				}
+			}
+			// a last sweep of reads over every reference, nothing kept
+			for _, r := range refs {
+				fm.Get(ctx, r.c)
+			}
+			log = append(log, "sweep")
+			finish("filestore-"+rd, cl.name, held, log)
+		}
+	}
 }
 
 func sortedKeys(m map[string]string) []string {
